@@ -122,15 +122,34 @@ pub fn queries(r: &mut Runner) {
         let _ = w.q(&e, json!({"is_whitelisted": {"address": t}}));
         n += 3;
     }
-    for m in [json!({"config": {}}), json!({"get_owner": {}}), json!({"get_all_vamm": {"limit": null}}), json!({"get_all_vamm_status": {"limit": null}})] {
+    for m in [json!({"config": {}}), json!({"get_owner": {}}), json!({"get_all_vamm": {"limit": null}}), json!({"get_all_vamm": {"limit": 1}}), json!({"get_all_vamm_status": {"limit": null}})] {
         let _ = w.q(&w.addrs.insurance_fund, m);
         n += 1;
     }
-    for m in [json!({"config": {}}), json!({"get_owner": {}}), json!({"get_token_length": {}}), json!({"get_token_list": {"limit": null}})] {
+    for va in w.addrs.vamms.iter().cloned().chain(std::iter::once(w.addrs.engine.clone())) {
+        // registered, unregistered and not a vAMM at all
+        let _ = w.q(&w.addrs.insurance_fund, json!({"is_vamm": {"vamm": va}}));
+        let _ = w.q(&w.addrs.insurance_fund, json!({"get_vamm_status": {"vamm": va}}));
+        n += 2;
+    }
+    for m in [json!({"config": {}}), json!({"get_owner": {}}), json!({"get_token_length": {}}), json!({"get_token_list": {"limit": null}}), json!({"is_token": {"token": w.resolve("@token")}}), json!({"is_token": {"token": "nosuchtoken"}})] {
         let _ = w.q(&w.addrs.fee_pool, m);
         n += 1;
     }
-    for m in [json!({"config": {}}), json!({"get_price": {"key": "AAA"}}), json!({"get_twap_price": {"key": "AAA", "interval": 900}}), json!({"get_previous_price": {"key": "AAA", "num_round_back": "1"}})] {
+    for k in crate::world::KEYS.iter().take(w.addrs.vamms.len().max(1)).cloned().chain(std::iter::once("NOSUCHKEY")) {
+        for m in [
+            json!({"get_price": {"key": k}}),
+            json!({"get_twap_price": {"key": k, "interval": 900}}),
+            json!({"get_twap_price": {"key": k, "interval": 0}}),
+            json!({"get_twap_price": {"key": k, "interval": 4000000000u64}}),
+            json!({"get_previous_price": {"key": k, "num_round_back": "1"}}),
+            json!({"get_previous_price": {"key": k, "num_round_back": "1000"}}),
+        ] {
+            let _ = w.q(&w.addrs.pricefeed, m);
+            n += 1;
+        }
+    }
+    for m in [json!({"config": {}}), json!({"get_owner": {}})] {
         let _ = w.q(&w.addrs.pricefeed, m);
         n += 1;
     }
